@@ -460,6 +460,7 @@ func (ks *KeyStore) expire(addr common.Address, u *unlocked, timeout time.Durati
 	case <-u.abort:
 		// just quit
 	case <-t.C:
+		verifExpire(addr, u)
 		ks.mu.Lock()
 		// only drop if it's still the same key instance that dropLater
 		// was launched with. we can check that using pointer equality
